@@ -12,11 +12,13 @@ import (
 	"hash/crc32"
 	"hash/fnv"
 	"strings"
+	"time"
 
 	"github.com/mandykoh/prism/meta/icc"
 
 	"verifharness/internal/core"
 	"verifharness/internal/imggen"
+	"verifharness/internal/src"
 )
 
 // C17 — description found via the tag table and decoded as the right string.
@@ -382,6 +384,44 @@ func c17Check(profile []byte, accept []string, hasDesc bool, via string) (kind, 
 		}
 		return "", "ok"
 	}
+	if via == "reader-reused" || via == "data+eof" {
+		var p *icc.Profile
+		var err error
+		var pan any
+		if via == "reader-reused" {
+			// one ProfileReader for two profiles back to back in one stream: the second is this one
+			first := structuredProfile(core.NewRNG(int64(len(data)), "c17first"), len(data)%3)
+			pr := icc.NewProfileReader(bytes.NewReader(append(append([]byte{}, first...), data...)))
+			func() {
+				defer func() {
+					if x := recover(); x != nil {
+						pan = x
+					}
+				}()
+				if _, e1 := pr.ReadProfile(); e1 != nil {
+					err = fmt.Errorf("first profile: %v", e1)
+					return
+				}
+				p, err = pr.ReadProfile()
+			}()
+		} else {
+			// a reader that hands over the last bytes together with io.EOF, in segments of up to 7000 bytes
+			p, err, pan = readProfile(shortByteReader{src.New(data).Sizes(7000).DataWithEnd()})
+		}
+		if pan != nil || err != nil || p == nil {
+			return "read-failed", fmt.Sprintf("ReadProfile (%s) failed on a well-formed profile: %v %v", via, err, pan)
+		}
+		if !hasDesc {
+			return "", "ok"
+		}
+		d, derr, dpan := description(p)
+		for _, a := range accept {
+			if a == d && derr == nil && dpan == nil {
+				return "", "ok"
+			}
+		}
+		return "wrong-description", fmt.Sprintf("(%s) Description() = %q (err %v, panic %v), acceptable: %q", via, d, derr, dpan, accept)
+	}
 	if via == "after-rejected" {
 		// history: cut copies of this very profile (inside the header, the tag table, the tag data)
 		// are read - and rejected - immediately before
@@ -494,7 +534,7 @@ func runC17(r *core.Run) {
 		var ring []c17Kept
 		for i := 0; i < n/shards; i++ {
 			p := c17Gen(rg, sh*(n/shards)+i)
-			for _, via := range []string{"direct", "jpeg", "offset", "bufio@4000", "source-reused", "concurrent-description", "after-rejected"} {
+			for _, via := range []string{"direct", "jpeg", "offset", "bufio@4000", "source-reused", "concurrent-description", "after-rejected", "reader-reused", "data+eof"} {
 				if via != "direct" && i%8 != 0 {
 					continue
 				}
@@ -542,6 +582,14 @@ func runC17(r *core.Run) {
 			}
 		}
 	})
+	if r.Variant == "" {
+		// the same workload under other locales (the description is the English record whatever the host speaks)
+		vs := []string{"env:LANG=de_DE.UTF-8+env:LC_ALL=de_DE.UTF-8@4", "env:LANG=ja_JP.UTF-8+env:LC_MESSAGES=fr_FR.UTF-8+env:TZ=Asia/Tokyo@3"}
+		for _, v := range vs {
+			r.RunVariantChild(v, 10*time.Minute, false)
+		}
+		r.Obs("fresh_process_environments", vs)
+	}
 	c17Twins(r)
 	// real profiles embedded in the repository's test images
 	real := 0
@@ -697,5 +745,5 @@ func replayC17(stage string, raw json.RawMessage) (bool, string, error) {
 }
 
 func init() {
-	core.Register(&core.Property{ID: "C17", Level: "exploration", Run: runC17, Replay: replayC17})
+	core.Register(&core.Property{ID: "C17", Level: "exploration", Run: runC17, Replay: replayC17, Child: variantChild("C17", "exploration", runC17)})
 }
